@@ -24,12 +24,19 @@ def docstring_lines(rng, ind, uid, nblocks, layout, quote='"""', first_line_pros
     L = [ind + quote + ('Summary %s.' % uid if first_line_prose else ''), '']
     markers = []
     if layout == 'google':
-        if rng.random() < 0.7:
+        opening_header = rng.random() < 0.15
+        if opening_header:
+            # the first block header stands on the opening line, directly behind the quotes
+            L = []
+        elif rng.random() < 0.7:
             L += [ind + ln for ln in OTHER_BLOCKS[0]] + ['']
         for b in range(nblocks):
             m = '%s_%d' % (uid, b)
             markers.append(m)
-            L += [ind + rng.choice(GOOGLE_TAGS), ind + '    >>> print("%s")' % m, ind + '    %s' % m, '']
+            head = ind + rng.choice(GOOGLE_TAGS)
+            if opening_header and b == 0:
+                head = ind + quote + head.strip()
+            L += [head, ind + '    >>> print("%s")' % m, ind + '    %s' % m, '']
             if rng.random() < 0.3:
                 L += [ind + ln for ln in rng.choice(OTHER_BLOCKS[1:])] + ['']
     elif layout == 'freeform':
@@ -38,7 +45,9 @@ def docstring_lines(rng, ind, uid, nblocks, layout, quote='"""', first_line_pros
             markers.append(m)
             L += [ind + '>>> print("%s")' % m, ind + m, '', ind + 'prose between groups', '']
     L.append(ind + quote)
-    return L, DocSpec(layout, markers)
+    ds = DocSpec(layout, markers)
+    ds.opening_header = layout == 'google' and opening_header
+    return L, ds
 
 
 class ModuleSpec(object):
@@ -69,6 +78,8 @@ class ModuleGen(object):
         self.out.extend(lines)
         if collect_as is not None and layout != 'none':
             self.spec.inventory[collect_as] = ds
+            if getattr(ds, 'opening_header', False):
+                self.spec.features.add('google-header-on-the-opening-line')
         if forbid is not None:
             for m in ds.markers:
                 self.spec.forbidden[m] = forbid
